@@ -15,7 +15,7 @@ PostDisconnect bookkeeping sees a disconnect without a completed accept (that is
 finding, not a violation of C16).
 -/
 import Teleport.Lemmas.Auth
-import Teleport.Lemmas.SrcFlow
+import Teleport.Lemmas.SrcPaths
 import Teleport.Gen.Transitions
 namespace Teleport
 namespace C16
@@ -328,57 +328,59 @@ def modelReject (lis : Bool) : Option St :=
   let s0 : St := { init lis true with acc := .decided 7 }
   (step s0 .branch).bind fun s1 => (List.replicate 6 Auth.Ev.closeStep).foldlM step s1 |>.bind (step · .accStep)
 
-def acceptKey (e : SrcFlow.Ev) : Option String :=
+open SrcPaths in
+def acceptKey (e : PEv) : Option String :=
   if e.is "cas" "statusOk<-statusPreparing" then some "cas:statusOk<-statusPreparing"
   else if e.is "spawn" "startReadAndHandle" || e.is "run" "startReadAndHandle" then some "reader"
   else if e.is "call" "sessHub.set" then some "call:sessHub.set"
   else none
 
-def isPostAccept (e : SrcFlow.Ev) : Bool := e.is "stage" "postAccept"
-def isCasOk (e : SrcFlow.Ev) : Bool := e.is "cas" "statusOk<-statusPreparing"
+open SrcPaths in
+def isPostAccept (e : PEv) : Bool := e.is "stage" "postAccept"
+open SrcPaths in
+def isCasOk (e : PEv) : Bool := e.is "cas" "statusOk<-statusPreparing"
 
-/-- the three effects in the statements that follow / precede the `postAccept` call. -/
-def effectsAfter (f : List SrcFlow.Ev) : Option (List String) := (after isPostAccept (mainFlow f)).map (·.filterMap acceptKey)
-def effectsBefore (f : List SrcFlow.Ev) : Option (List String) := (upto isPostAccept (mainFlow f)).map (·.filterMap acceptKey)
-/-- the first `n` statements after the first one that satisfies `p`, with their enclosing conditions. -/
-def nextAfter (p : SrcFlow.Ev → Bool) (n : Nat) (f : List SrcFlow.Ev) : Option (List (String × List String)) :=
-  (after p (mainFlow f)).map fun l => (l.take n).map fun e => (e.key, e.guards)
-
-/-- one `postAccept` call on the global container, tested at once; its failing branch is
-    `sess.Close()` then `return`; no other stage call; the step to Ok is one unconditional
-    compare-and-swap whose failing branch leaves the function. -/
-def acceptShape (f : List SrcFlow.Ev) : Bool :=
-  (f.filter isPostAccept).map (fun e => (e.x, e.use, e.guards)) == [("global", "fail-return", [])] &&
-  (f.filter fun e => e.kind == "stage").length == 1 &&
-  nextAfter isPostAccept 2 f == some [("call:sess.Close", ["!postAccept().OK()"]), ("return:", ["!postAccept().OK()"])] &&
-  (f.filter isCasOk).map (fun e => (e.use, e.guards)) == [("fail-return", [])]
+open SrcPaths in
+/-- on every control-flow path: nothing that makes the connection live before the `postAccept` call
+    (nor on a path without one); at most one stage call, `postAccept` on the global container, its
+    verdict tested on the path; verdict not OK → `sess.Close()`, return, nothing else; verdict OK →
+    the step to Ok is the compare-and-swap, tested on the path; won → the three effects in the order
+    `model`; lost → `lost`, return. -/
+def acceptShape (ps : List Path) (model lost : List String) : Bool :=
+  ps.all (fun p =>
+    (pre isPostAccept p).filterMap acceptKey == [] &&
+    (p.filter fun e => e.kind == "stage").length ≤ 1 &&
+    (p.all fun e => e.kind != "stage" || (isPostAccept e && e.detail == "global" && e.out != "")) &&
+    (p.all fun e => !isCasOk e || e.out != "") &&
+    (!(p.any fun e => isPostAccept e && e.out == "fail") || (rest isPostAccept p).map PEv.key == ["call:sess.Close", "return:"]) &&
+    (!(p.any fun e => isPostAccept e && e.out == "ok") || ((rest isPostAccept p).filter isCasOk).length == 1) &&
+    (!(p.any fun e => isCasOk e && e.out == "ok") || (rest isPostAccept p).filterMap acceptKey == model) &&
+    (!(p.any fun e => isCasOk e && e.out == "fail") || (rest isCasOk p).map PEv.key == lost ++ ["return:"])) &&
+  ps.any (fun p => p.any fun e => isCasOk e && e.out == "ok") &&
+  ps.any (fun p => p.any fun e => isCasOk e && e.out == "fail") &&
+  ps.any (fun p => p.any fun e => isPostAccept e && e.out == "fail")
 
 /-- **The accept hooks come first on both accept paths; a refusal closes the session and returns
-    (tie A).** In `ServeConn` and in the accept goroutine of `serveListener` as they are now:
-    `postAccept` is called exactly once, on the peer's global container, and its verdict is tested
-    at once; the failing branch is `sess.Close()` followed by `return` — nothing else; nothing that
-    makes the connection live (status Ok, reader start, `sessHub.set`) precedes the call; after it
-    they come in the order in which `Auth.step` produces them — `ServeConn`: compare-and-swap
-    Preparing → Ok, reader spawned, hub; listener: hub, compare-and-swap, reader run in place — and
-    the step to Ok is the compare-and-swap whose failing branch returns (listener: after taking the
-    session out of the hub again). In the model a refused connection gets none of the three
-    effects: its `Close()` runs to the end and the goroutine returns. Starting the reader, entering
-    the hub or setting Ok before the hooks, or continuing after a refusal, changes the regenerated
-    flow and this theorem no longer checks. -/
+    (tie A).** On EVERY control-flow path of `ServeConn` and of the accept goroutine of `serveListener`
+    as they are now (`Gen.tpaths_*`: helpers inlined — also one that returns the verdict or the
+    session — conditions normalised): `postAccept` is called at most once, on the peer's global
+    container, and its verdict is tested; on the path where it is not OK what follows is
+    `sess.Close()` and `return` — nothing else; nothing that makes the connection live (status Ok,
+    reader start, `sessHub.set`) precedes the call; after an OK verdict they come in the order in which
+    `Auth.step` produces them — `ServeConn`: compare-and-swap Preparing → Ok, reader spawned, hub;
+    listener: hub, compare-and-swap, reader run in place — and the step to Ok is the compare-and-swap
+    whose losing path returns (listener: after taking the session out of the hub again). In the
+    model a refused connection gets none of the three effects: its `Close()` runs to the end and the
+    goroutine returns. Starting the reader, entering the hub or setting Ok before the hooks, or
+    continuing after a refusal, changes the regenerated paths and this theorem no longer checks. -/
 theorem C16_accept_order :
-    Gen.transitions_missing = [] ∧
-    effectsAfter Gen.flow_peer_ServeConn = some (modelAccept false) ∧
-    effectsAfter Gen.flow_peer_serveListener_accept = some (modelAccept true) ∧
+    Gen.tpaths_peer_ServeConn_missing = [] ∧ Gen.tpaths_peer_serveListener_accept_missing = [] ∧
+    acceptShape Gen.tpaths_peer_ServeConn (modelAccept false) [] = true ∧
+    acceptShape Gen.tpaths_peer_serveListener_accept (modelAccept true) ["call:sessHub.delete"] = true ∧
     (modelAccept false).length = 3 ∧ (modelAccept true).length = 3 ∧
-    effectsBefore Gen.flow_peer_ServeConn = some [] ∧
-    effectsBefore Gen.flow_peer_serveListener_accept = some [] ∧
-    acceptShape Gen.flow_peer_ServeConn = true ∧ acceptShape Gen.flow_peer_serveListener_accept = true ∧
-    nextAfter isCasOk 1 Gen.flow_peer_ServeConn = some [("return:", ["!sess.tryChangeStatus(statusOk,statusPreparing)"])] ∧
-    nextAfter isCasOk 2 Gen.flow_peer_serveListener_accept =
-      some [("call:sessHub.delete", ["!sess.tryChangeStatus(statusOk,statusPreparing)"]),
-            ("return:", ["!sess.tryChangeStatus(statusOk,statusPreparing)"])] ∧
-    ((mainFlow Gen.flow_peer_ServeConn).any fun e => e.is "spawn" "startReadAndHandle") = true ∧
-    ((mainFlow Gen.flow_peer_serveListener_accept).any fun e => e.is "run" "startReadAndHandle") = true ∧
+    (Gen.tpaths_peer_ServeConn.any fun p => p.any fun (e : SrcPaths.PEv) => e.is "spawn" "startReadAndHandle") = true ∧
+    (Gen.tpaths_peer_ServeConn.all fun p => p.all fun (e : SrcPaths.PEv) => !e.is "run" "startReadAndHandle") = true ∧
+    (Gen.tpaths_peer_serveListener_accept.any fun p => p.any fun (e : SrcPaths.PEv) => e.is "run" "startReadAndHandle") = true ∧
     [false, true].all (fun lis => match modelReject lis with
       | some s => s.acc == .done 7 && s.status == .activeClosed && s.rd.isNone && !s.inHub && s.sockClosed && !s.authPassed
       | none => false) = true := by
@@ -398,7 +400,8 @@ that takes it out again. The model's `evSetId` / `evCloseStep` are compared with
 flows of both functions. -/
 
 section TieHub
-open SrcFlow
+open SrcFlow (sameSet without)
+open SrcPaths
 
 def closerKey : CPc → String
   | .hubdel => "call:sessHub.delete" | .notify => "call:notifyClosed" | .waitCtx => "wg:ctx.Wait"
@@ -445,26 +448,25 @@ def names (l : List SStat) : String := ",".intercalate (l.map statName)
     unconditionally; a second check of the same statuses guards the extra
     `sessHub.delete(newID, s)`. Making the removal in `closeLocked` depend on anything (the status
     before the close, a "registered" flag), dropping it, or changing the statuses in which `SetID`
-    registers, changes the regenerated flows and this theorem no longer checks. -/
+    registers, changes the regenerated path sets and this theorem no longer checks. (Both functions
+    are compared as SETS OF CONTROL-FLOW PATHS: `closeLocked` has exactly the losing path and the
+    winning path with the model's order; `SetID` exactly the four paths listed.) -/
 theorem C16_close_unlists_setid_registers :
-    Gen.transitions_missing = [] ∧
-    without ["wg:call.Wait"] (keys (mainFlow Gen.flow_session_closeLocked)) =
-      ("cas:statusActiveClosing<-" ++ names [.ok, .preparing]) :: modelCloserKeys ∧
+    Gen.tpaths_session_closeLocked_missing = [] ∧ Gen.tpaths_session_SetID_missing = [] ∧
+    sameSet (Gen.tpaths_session_closeLocked.map fun p => without ["wg:call.Wait"] (tags p))
+      [["cas:statusActiveClosing<-" ++ names [.ok, .preparing] ++ "=fail"],
+       ("cas:statusActiveClosing<-" ++ names [.ok, .preparing] ++ "=ok") :: modelCloserKeys] = true ∧
     sameSet [SStat.ok, SStat.preparing] closeFromModel = true ∧
     modelCloserKeys.length = 6 ∧
-    ((mainFlow Gen.flow_session_closeLocked).filter fun e => e.kind != "return").all (fun e => e.guards.isEmpty) = true ∧
-    ((mainFlow Gen.flow_session_closeLocked).filter fun e => e.is "call" "sessHub.delete").map (fun e => (e.x, e.use)) =
-      [("argc=2", "ignored")] ∧
-    nextAfter (fun e => e.kind == "cas") 2 Gen.flow_session_closeLocked =
-      some [("return:", ["!$.tryChangeStatus(statusActiveClosing,statusOk,statusPreparing)"]), ("call:sessHub.delete", [])] ∧
-    (mainFlow Gen.flow_session_SetID).map (fun e => (e.key, e.x, e.use, e.guards)) =
-      [("return:", "", "", ["% == %"]),
-       ("check:" ++ names setIdRegisters, "", "fail-return", []),
-       ("return:", "", "", ["!$.checkStatus(" ++ names setIdRegisters ++ ")"]),
-       ("call:sessHub.set", "argc=1", "ignored", []),
-       ("call:sessHub.delete", "argc=2", "ignored", []),
-       ("check:" ++ names setIdRegisters, "", "fail-fallthrough", []),
-       ("call:sessHub.delete", "argc=2", "ignored", ["!$.checkStatus(" ++ names setIdRegisters ++ ")"])] ∧
+    Gen.tpaths_session_closeLocked.all (fun p => p.all fun (e : PEv) => !e.is "call" "sessHub.delete" || e.detail == "argc=2") = true ∧
+    sameSet (Gen.tpaths_session_SetID.map tags)
+      [[],
+       ["check:" ++ names setIdRegisters ++ "=fail"],
+       ["check:" ++ names setIdRegisters ++ "=ok", "call:sessHub.set", "call:sessHub.delete", "check:" ++ names setIdRegisters ++ "=ok"],
+       ["check:" ++ names setIdRegisters ++ "=ok", "call:sessHub.set", "call:sessHub.delete", "check:" ++ names setIdRegisters ++ "=fail",
+        "call:sessHub.delete"]] = true ∧
+    Gen.tpaths_session_SetID.all (fun p => p.all fun (e : PEv) =>
+      (!e.is "call" "sessHub.delete" || e.detail == "argc=2") && (!e.is "call" "sessHub.set" || e.detail == "argc=1")) = true ∧
     setIdRegisters = [.preparing, .ok] := by
   decide
 
